@@ -60,7 +60,9 @@ func (s *ScanMethod) ProcessPacketData(data []byte, _ *gopacket.CaptureInfo) err
 	if err := s.parser.DecodeLayers(data, &s.rcvDecoded); err != nil {
 		return err
 	}
-	if len(s.rcvDecoded) != 2 {
+	// exactly Ethernet/ARP: another chain of two layers (Ethernet in Ethernet)
+	// leaves the ARP layer of the previous packet in place
+	if len(s.rcvDecoded) != 2 || s.rcvDecoded[1] != layers.LayerTypeARP {
 		return nil
 	}
 	// only Ethernet/IPv4 ARP packets
